@@ -150,7 +150,7 @@ func (e EncStr) Value(ctx context.Context, field *schema.Field, dst reflect.Valu
 
 // shared reusable handles carrying chain state with spare slice capacity (3 joins / 3
 // orders): every goroutine derives its own chain from them
-type sharedHandles struct{ joins, order, orFirst, fromJoins *gorm.DB }
+type sharedHandles struct{ joins, order, orFirst, fromJoins, groupHaving *gorm.DB }
 
 var sharedOf sync.Map // root *gorm.DB -> *sharedHandles
 
@@ -176,6 +176,10 @@ func makeShared(root *gorm.DB) {
 		fromJoins: root.Model(&User{}).Clauses(clause.From{Joins: append(make([]clause.Join, 0, 4), clause.Join{
 			Type: clause.LeftJoin, Table: clause.Table{Name: "pets", Alias: "fp"},
 			ON: clause.Where{Exprs: []clause.Expression{clause.Expr{SQL: "fp.user_id = users.id AND fp.id < 0"}}}})}).Session(&gorm.Session{}),
+		// three grouping columns and three HAVING conditions (lists grown by append have room behind three
+		// elements): every goroutine adds a fourth of each
+		groupHaving: root.Table("solos").Group("v").Group("n").Group("id").
+			Having("id >= ?", -1).Having("n >= ?", -1).Having("id <> ?", -5).Session(&gorm.Session{}),
 	}
 	sharedOf.Store(root, sh)
 }
@@ -355,6 +359,21 @@ var steps = []step{
 			var all []string
 			err3 := sh.orFirst.Order("id").Limit(2).Pluck("v", &all).Error
 			out += fmt.Sprintf("%s %s %s %v %d;", fmtErr(err), fmtErr(err2), fmtErr(err3), vs, n)
+		}
+		return out
+	}},
+	{"SharedGroupHaving", func(db *gorm.DB, b int64) string {
+		sh := getShared(db)
+		if sh == nil {
+			return "no shared handle"
+		}
+		out := ""
+		for i := 0; i < 3; i++ {
+			var vs []string
+			err := sh.groupHaving.Having("id >= ? AND id < ?", b, b+1000).Order("id").Pluck("v", &vs).Error
+			var ws []string
+			err2 := sh.groupHaving.Group("secret").Where("id >= ? AND id < ?", b, b+1000).Order("id").Pluck("v", &ws).Error
+			out += fmt.Sprintf("%s %s %v %v;", fmtErr(err), fmtErr(err2), vs, ws)
 		}
 		return out
 	}},
@@ -707,7 +726,7 @@ func run(c *core.Ctx) {
 		for g := range progs {
 			p := []int{idx["CreateSolo"]}
 			for n := r.Range(4, 8); n > 0; n-- {
-				p = append(p, idx[core.Pick(r, []string{"FindSolos", "FirstSolo", "FindSolos", "SharedOrFirst", "SharedFromJoins"})])
+				p = append(p, idx[core.Pick(r, []string{"FindSolos", "FirstSolo", "FindSolos", "SharedOrFirst", "SharedFromJoins", "SharedGroupHaving"})])
 			}
 			progs[g] = p
 		}
